@@ -614,3 +614,27 @@ theorem dAddSAll_total (cfg : Cfg) :
         exact hi'
 
 end Nuts.C10
+
+namespace Nuts.C10
+open Nuts
+
+/-! ## HistorySinceVersion reads the published bytes -/
+
+/-- what `HistorySinceVersion` returns when every document read succeeds: the published bytes of the listed events -/
+def rawList (created : Nat) : Nat → List Event → List (String × Nat × Nat × Nat)
+  | _, [] => []
+  | v, e :: es => (e.doc.render, created, e.sigTime, v) :: rawList created (v + 1) es
+
+theorem historyRawFrom_ok (b : Blob) (created : Nat) :
+    ∀ (es : List Event) (v : Nat), (∀ e ∈ es, alGet b.docs e.payloadHash = some e.doc.render) →
+      historyRawFrom b created v es = .ok (rawList created v es) := by
+  intro es
+  induction es with
+  | nil => intro v _; rfl
+  | cons e es ih =>
+    intro v h
+    unfold historyRawFrom
+    simp only [h e (List.mem_cons_self ..), ih (v + 1) (fun x hx => h x (List.mem_cons_of_mem _ hx))]
+    rfl
+
+end Nuts.C10
